@@ -121,6 +121,20 @@ def contract_unit(spec):
             if confirmed is not None:
                 e['witness'] = {'inputs': confirmed.get('inputs'), 'detail': confirmed.get('detail')}
         out['obligations'].append(e)
+    if res.undecided and (c.ghost.get('harness') or c.ghost.get('search')) and not c.ghost.get('k3'):
+        # the generator could not handle the function as it stands (on a changed tree: a construct
+        # outside the subset, a loop without a specification).  No obligation can be discharged, the
+        # unit stays undecided -- unless the contract, evaluated on the real code over its directed
+        # search domain, is violated outright: that is a confirmed violation with its witness.
+        if searched is None:
+            searched = rp.search(c)
+        if searched.get('verdict') == 'violates':
+            out['obligations'].append({
+                'name': '%s.concrete' % c.qual, 'expect': 'valid', 'status': 'failed', 'backend': 'replay',
+                'time': 0.0, 'okind': 'post', 'tried': 'directed search (generation undecided: %s)' % res.undecided,
+                'confirmed': True,
+                'text': 'the contract holds on the real code for every member of its directed search domain',
+                'witness': {'inputs': searched.get('inputs'), 'detail': searched.get('detail')}})
     for name, info in vc.trivial_names:
         out['obligations'].append({'name': name, 'expect': 'valid', 'status': 'discharged',
                                    'backend': 'simplify', 'time': 0.0, 'smt_bytes': 0,
